@@ -14,8 +14,10 @@ func ProfileFor(name string) Profile {
 	switch name {
 	case "compose":
 	case "selector":
-		p = Profile{Name: name, Depth: 1, WSel: 10, WParen: 2, WUnary: 0, WAggr: 1, WBinVS: 1,
-			WNum: 1, POffset: 0.5, PAt: 0.4, PMatcher: 0.3, PBy: 0}
+		// WBinVV: the same metric selected twice in one query with different modifiers (the
+		// selections are cached per query by matchers, time range and hints)
+		p = Profile{Name: name, Depth: 1, WSel: 10, WParen: 2, WUnary: 0, WAggr: 1, WBinVS: 1, WBinVV: 4,
+			WNum: 1, POffset: 0.5, PAt: 0.4, PMatcher: 0.3, PBy: 0, Metrics: []string{"m1", "m1", "m2"}}
 	case "rangefn":
 		p = Profile{Name: name, Depth: 1, WRangeFn: 10, WAggr: 1, WParen: 1, WNum: 1, POffset: 0.4, PAt: 0.3, PMatcher: 0.2, PBy: 0.5}
 	case "aggr":
